@@ -39,7 +39,7 @@ theorem algVariant_ok (U : UnicodeOps) {cfg : Cfg} (H : CfgOk cfg) (e : RustEnum
     (g : GoAlgVariant) (st' : Imports)
     (h : algVariant U cfg e e.id.original tagKey cs v st = .ok (g, st')) : AlgVariantOk g := by
   have hvn : IdentStr v.id.original := hv.original
-  have hconst : NB G (e.id.original ++ Rename.toPascal tagKey ++ s%"Variant" ++ v.id.original) :=
+  have hconst : NB G (e.id.original ++ Rename.toPascal U tagKey ++ s%"Variant" ++ v.id.original) :=
     IdentStr.nb (IdentStr.append (IdentStr.append (IdentStr.append he.original (toPascal_ident htag))
       (by decide : IdentStr s%"Variant")) hvn)
   unfold algVariant at h
